@@ -125,12 +125,14 @@ func _yieldUnmarshalMachinePtr(row *unmarshalSlabRow, atl atlas.Atlas, rt reflec
 		return mach
 	case reflect.Interface:
 		return &row.unmarshalMachineWildcard
-	case reflect.Func:
-		panic(fmt.Errorf("functions cannot be unmarshalled!"))
 	case reflect.Ptr:
 		panic(fmt.Errorf("unreachable: ptrs must already be resolved"))
 	default:
-		panic(fmt.Errorf("excursion %s", rt.Kind()))
+		// chan, func, complex, unsafe pointer: not serializable.  Report it like any other
+		// unsupported type, as an error rather than a panic.
+		mach := &row.errThunkUnmarshalMachine
+		mach.err = fmt.Errorf("values of kind %s (type %v) cannot be unmarshalled", rt.Kind(), rt)
+		return mach
 	}
 }
 
